@@ -29,7 +29,7 @@ func checkC05(c *core.Ctx) {
 	c.Assume("model.NoteFor spells the note for an interval with at most one accidental (cases needing a double accidental are skipped and counted)", "yaml.v3 as reader", "smfdec")
 
 	keys := theory.Supported()
-	c.Stream("notation", c.N(4000, 40000), func(i int, r *rand.Rand) {
+	c.Stream("notation", c.N(4000, 100000), func(i int, r *rand.Rand) {
 		p := model.RandPiece(r, model.GenOpts{MinLen: 1, MaxLen: 10, RestProb: 0.2, SettingProb: 0.1, TextProb: 0.15, KeyChanges: false, BassProb: 0.5, MaxDeg: 7, SimpleOnly: true, TextSafe: true})
 		// 0..3 key changes anywhere
 		for k := r.Intn(4); k > 0; k-- {
@@ -116,7 +116,7 @@ func checkC05(c *core.Ctx) {
 
 	// playback in two keys
 	pairs := len(keys) * len(keys)
-	nPlay := c.N(1500, 8000)
+	nPlay := c.N(1500, 20000)
 	c.Stream("transpose", nPlay, func(i int, r *rand.Rand) {
 		var k1, k2 theory.Key
 		if !c.Quick() && i < pairs {
